@@ -155,8 +155,8 @@ Proof.
   - intros t0 h r X. updt t t0; [discriminate|eauto].
 Qed.
 
-Lemma sinv_add s pub hon m : SInv s -> hlock s = None ->
-  SInv (set_h s (nexth s) (h0 <| h_pub := pub |> <| h_hon := hon |> <| h_inmap := true |>)
+Lemma sinv_add s pub hon sub m : SInv s -> hlock s = None ->
+  SInv (set_h s (nexth s) (h0 <| h_pub := pub |> <| h_hon := hon |> <| h_sub := sub |> <| h_inmap := true |>)
           <| nexth := S (nexth s) |> <| hwg := S (hwg s) |> <| maplen := m |>).
 Proof.
   intros I H. free_facts I H.
@@ -179,10 +179,10 @@ Proof.
     rewrite X, upd_same. simpl. lia.
 Qed.
 
-Lemma step_add s pub hon s' evs : SInv s -> step s (LAdd pub hon) = Some (s', evs) -> SInv s'.
+Lemma step_add s pub hon sub s' evs : SInv s -> step s (LAdd pub hon sub) = Some (s', evs) -> SInv s'.
 Proof.
   intros I H. unfold step in H. destruct (hlock s) eqn:HL; [discriminate|].
-  pose proof (sinv_add s pub hon (S (maplen s)) I HL) as I1.
+  pose proof (sinv_add s pub hon sub (S (maplen s)) I HL) as I1.
   cbv zeta in H. simpl fix14 in H. simpl hadded in H. simpl wat in H.
   destruct (fix14 s).
   - destruct (Nat.eqb (hadded s) 0); injection H as <- <-; [apply sinv_hadded|]; exact I1.
